@@ -280,7 +280,12 @@ func runProgram(b *tv.Batch, prog program, seed int64) result {
 		return false
 	}
 	isMidWake := func() bool { hmu.Lock(); defer hmu.Unlock(); return midWake }
-	calm := func() bool { return !cronParked() && !clk.pending() && !isMidWake() }
+	// A timer armed with a non-positive duration needs one clock step of 0 to fire.  A scheduler that asks for
+	// that again and again without anything else happening is not making progress: after two nudges in a row
+	// the driver stops nudging and reports the quiescent point as it is (the monitor judges it).
+	nudges, nudgeStuck := 0, false
+	pending := func() bool { return clk.pending() && !nudgeStuck }
+	calm := func() bool { return !cronParked() && !pending() && !isMidWake() }
 
 	mkJob := func(id int, block bool) func() {
 		return func() {
@@ -306,8 +311,11 @@ func runProgram(b *tv.Batch, prog program, seed int64) result {
 	doStep := func(s step) func() {
 		return func() {
 			pc++
+			if s.Op != "unblock" {
+				nudges = 0
+			}
 			if s.Op == "sched" || s.Op == "remove" || s.Op == "entries" || s.Op == "stop" {
-				raced, runsAtCall = clk.pending() && cronParked() && !isMidWake(), rec.nruns()
+				raced, runsAtCall = pending() && cronParked() && !isMidWake(), rec.nruns()
 			}
 			switch s.Op {
 			case "sched":
@@ -383,7 +391,13 @@ func runProgram(b *tv.Batch, prog program, seed int64) result {
 		if !inflight() {
 			settleRace()
 		}
-		if inflight() || clk.pending() || isMidWake() {
+		if inflight() || isMidWake() {
+			return
+		}
+		if clk.pending() && !cronParked() && nudges >= 2 {
+			nudgeStuck = true
+		}
+		if pending() {
 			return
 		}
 		for _, p := range parked {
@@ -402,6 +416,7 @@ func runProgram(b *tv.Batch, prog program, seed int64) result {
 		}
 	}
 	nudge := sched.Choice{Kind: "extra", Name: "nudge", Do: func() {
+		nudges++
 		rec.ev("adv", tv.M{"now": nowTicks()})
 		clk.Step(0)
 	}}
@@ -411,7 +426,7 @@ func runProgram(b *tv.Batch, prog program, seed int64) result {
 		if seq && cronParked() {
 			return nil // sequential histories: let the scheduler settle first
 		}
-		needNudge := !inflight() && clk.pending() // a pending expiry at quiescence with the loop in select is an unfired timer
+		needNudge := !inflight() && pending() // a pending expiry at quiescence with the loop in select is an unfired timer
 		if needNudge && !cronParked() && !isMidWake() {
 			if seq || final {
 				return []sched.Choice{nudge}
@@ -426,7 +441,7 @@ func runProgram(b *tv.Batch, prog program, seed int64) result {
 		switch s.Op {
 		case "adv":
 			// the clock moves only when no expiry is waiting to be picked up and no wake-up is being processed
-			if clk.pending() || isMidWake() || (seq && !calm()) {
+			if pending() || isMidWake() || (seq && !calm()) {
 				return cs
 			}
 			name = fmt.Sprintf("step:adv:%d", s.D)
@@ -452,6 +467,9 @@ func runProgram(b *tv.Batch, prog program, seed int64) result {
 			return 3
 		case ch.Name == "nudge":
 			return 2
+		}
+		if prog.Mode == "race" && cronParked() && !isMidWake() {
+			return 9 // stage the race: step the clock / issue the call while the scheduler is parked before its select
 		}
 		return 3
 	}
@@ -644,6 +662,15 @@ func TestCheck(t *testing.T) {
 	if !mc.OK {
 		e.Inconclusive("model check of CronSched.tla did not pass: " + mc.What + "\n" + mc.Tail(2000))
 	}
+	var extraDistinct, extraGenerated int64
+	if ev.Thorough() {
+		mc2 := tlc.Run(tlc.Opts{Dir: "CronSched", Module: "MCCronSched", Config: "MC_big_nested.cfg", Workers: 16, Timeout: 30 * time.Minute, HeapMB: 12000, Args: []string{"-noGenerateSpecTE"}})
+		fmt.Printf("MC CronSched (nested + never-firing schedules, 5 caller ops): ok=%v generated=%d distinct=%d depth=%d wall=%s %s\n", mc2.OK, mc2.Generated, mc2.Distinct, mc2.Depth, mc2.Wall.Round(time.Millisecond), mc2.What)
+		if !mc2.OK {
+			e.Inconclusive("model check of CronSched.tla (nested) did not pass: " + mc2.What + "\n" + mc2.Tail(2000))
+		}
+		extraDistinct, extraGenerated = mc2.Distinct, mc2.Generated
+	}
 	live := tlc.Run(tlc.Opts{Dir: "CronSched", Module: "MCCronSched", Config: "MC_live.cfg", Workers: 16, Timeout: 10 * time.Minute, HeapMB: 12000, Args: []string{"-noGenerateSpecTE"}})
 	fmt.Printf("MC CronSched liveness: ok=%v generated=%d distinct=%d wall=%s %s\n", live.OK, live.Generated, live.Distinct, live.Wall.Round(time.Millisecond), live.What)
 	if !live.OK {
@@ -654,10 +681,15 @@ func TestCheck(t *testing.T) {
 	if !def.Violation {
 		e.Inconclusive("the defect variant of CronSched.tla was not rejected: the model check is vacuous")
 	}
-	e.Set("states", mc.Distinct+live.Distinct)
-	e.Set("transitions", mc.Generated+live.Generated)
+	def2 := tlc.Run(tlc.Opts{Dir: "CronSched", Module: "MCCronSched", Config: "MC_defect_lateadd.cfg", Workers: 8, Timeout: 5 * time.Minute, HeapMB: 8000, Args: []string{"-noGenerateSpecTE"}})
+	fmt.Printf("MC CronSched defect variant (jobWaiter.Add inside the job goroutine): violation=%v %s wall=%s\n", def2.Violation, def2.What, def2.Wall.Round(time.Millisecond))
+	if !def2.Violation {
+		e.Inconclusive("the lateadd defect variant of CronSched.tla was not rejected: the model check is vacuous")
+	}
+	e.Set("states", mc.Distinct+live.Distinct+extraDistinct)
+	e.Set("transitions", mc.Generated+live.Generated+extraGenerated)
 	e.Set("checker_cmd", mc.Cmd)
-	e.Set("mc_defect_rejected", def.Violation)
+	e.Set("mc_defect_rejected", def.Violation && def2.Violation)
 
 	b := &tv.Batch{}
 	var results []result
@@ -684,13 +716,13 @@ func TestCheck(t *testing.T) {
 	for _, p := range systematic() {
 		run(p, rng.Int63())
 	}
-	nStaged := ev.Pick(12, 300)
+	nStaged := ev.Pick(12, 100)
 	for _, p := range staged() {
 		for i := 0; i < nStaged; i++ {
 			run(p, rng.Int63())
 		}
 	}
-	nSeq, nRace, nPer := ev.Pick(60, 3000), ev.Pick(90, 4000), ev.Pick(2, 4)
+	nSeq, nRace, nPer := ev.Pick(60, 1000), ev.Pick(90, 1200), ev.Pick(2, 3)
 	for i := 0; i < nSeq; i++ {
 		run(genProgram(rng, "seq"), rng.Int63())
 	}
@@ -712,6 +744,13 @@ func TestCheck(t *testing.T) {
 			idx = append(idx, i)
 		}
 	}
+	// ungated rounds (Stop against a wake-up, scheduled by the Go runtime on one P and on all Ps)
+	nGated := jb.Len()
+	nStress := ev.Pick(150, 3000)
+	if failed := stressRounds(jb, rng, nStress); failed > nStress/10 {
+		e.Inconclusive(fmt.Sprintf("%d of %d ungated rounds did not complete", failed, 2*nStress))
+	}
+	fmt.Printf("ungated Stop-vs-wake rounds: %d\n", jb.Len()-nGated)
 	rej, res := tv.Validate(tlc.Opts{Dir: "CronSched", Module: "TraceCronSched", Config: "TraceCronSched.cfg", Workers: 16, Timeout: ev.Pick(6*time.Minute, 40*time.Minute), HeapMB: 12000}, jb)
 	fmt.Printf("TLC contract validation: ok=%v traces=%d rejected=%d distinct=%d wall=%s %s\n", res.OK, jb.Len(), len(rej), res.Distinct, res.Wall.Round(time.Millisecond), res.What)
 	if !res.OK {
@@ -725,9 +764,10 @@ func TestCheck(t *testing.T) {
 	}
 	fmt.Printf("racing select outcomes observed: %v\n", races)
 	e.Set("race_outcomes", races)
-	e.Set("evaluations", int64(b.Len()))
+	e.Set("evaluations", int64(b.Len()+jb.Len()-nGated))
+	e.Set("ungated_rounds", int64(jb.Len()-nGated))
 	e.Set("traces_validated_against_impl", int64(jb.Len()))
-	e.Set("rule", "a case = (history of one caller: Schedule (harness schedule = periodic set read in the wall clock of the instant handed to Next, or a parsed 5-field spec via AddFunc) over equal / nested 2-4 / co-prime 2-3 / never-firing schedules, Remove, Entries, Start, Stop, restart, clock steps of 1,2,3,5 ticks of 30 min to exact activation instants, between them and across several, blocking or immediate jobs; Cron location +05:30, -02:30 or UTC with a UTC fake clock) x (seeded schedule over the gates cron.run.armed, cron.run.woke, cron.job.start and the blocked jobs; sequential mode: every op at quiescence; racing mode: ops and clock steps while the scheduler is parked before its select); 70 systematic + 8 staged + random histories; non-trivial = schedule longer than 8 choices; distinct by (history, schedule)")
+	e.Set("rule", "a case = (history of one caller: Schedule (harness schedule = periodic set read in the wall clock of the instant handed to Next, or a parsed 5-field spec via AddFunc) over equal / nested 2-4 / co-prime 2-3 / never-firing schedules, Remove, Entries, Start, Stop, restart, clock steps of 1,2,3,5 ticks of 30 min to exact activation instants, between them and across several, blocking or immediate jobs; Cron location +05:30, -02:30 or UTC with a UTC fake clock) x (seeded schedule over the gates cron.run.armed, cron.run.woke, cron.job.start and the blocked jobs; sequential mode: every op at quiescence; racing mode: ops and clock steps while the scheduler is parked before its select); 70 systematic + 8 staged + random histories; plus ungated rounds (1-3 entries due, one clock step, Stop at once, on GOMAXPROCS=1 and on all Ps); non-trivial = schedule longer than 8 choices; distinct by (history, schedule)")
 	if len(idx) > 0 {
 		for _, k := range []int{0, len(idx) / 2, len(idx) - 1} {
 			i := idx[k]
@@ -735,6 +775,10 @@ func TestCheck(t *testing.T) {
 		}
 	}
 	for _, r := range rej {
+		if r.Trace >= nGated {
+			e.Violation(keyOf(r.Why, program{Loc: 19800})+":ungated", r.Why, tv.M{"ungated_round": jb.TraceStrings(r.Trace), "at": r.At})
+			continue
+		}
 		i := idx[r.Trace]
 		e.Violation(keyOf(r.Why, progs[i]), r.Why, tv.M{"program": progs[i], "schedule": results[i].schedule, "hook_trace": results[i].hook, "trace": jb.TraceStrings(r.Trace), "at": r.At})
 	}
@@ -753,7 +797,7 @@ func keyOf(why string, p program) string {
 	if p.Loc != 0 {
 		class = "location-offset"
 	}
-	return k + ":" + p.Mode + ":" + class
+	return k + ":" + class
 }
 
 // replayProgram: ./check C05 --replay <file written by a violation> re-runs that history under its recorded schedule first.
